@@ -291,24 +291,32 @@ package vuego
 //@ func NewExprEvaluator() (e)
 //@   modifies nothing
 //@   ensures C10+C13.cache.new: fresh(e) && forall k string :: !(k in e.programs)
+//@ shared ExprEvaluator.programs guarded_by mu
+//@ shared Vue.templateCache guarded_by templateMu
+//@ shared pathCache.m guarded_by RWMutex
 //@ func (e *ExprEvaluator) getProgram(expression) (prog, err)
-//@   modifies contents(e.programs)
+//@   unlocked
+//@   modifies contents(e.programs), held(&e.mu)
 //@   ensures C10+C13.cache.hit.eq.miss: err == nil ==> prog == compiled2(expression, optAllowUndef(), optDisable("count"))
+//@ func (e *ExprEvaluator) ClearCache()
+//@   unlocked
+//@   modifies e.programs, held(&e.mu)
 //@ func (e *ExprEvaluator) Eval(expression, env) (r, err)
-//@   modifies contents(e.programs)
+//@   modifies contents(e.programs), held(&e.mu)
 
 //@ func getCachedPath(expr) (r)
-//@   modifies contents(pathCache.m)
+//@   unlocked
+//@   modifies contents(pathCache.m), held(&pathCache.RWMutex)
 //@ func (s *Stack) resolveStep(cur, p) (r)
 //@   trusted
 //@   modifies nothing
 //@ func (s *Stack) Resolve(expr) (v, ok)
-//@   modifies contents(pathCache.m)
+//@   modifies contents(pathCache.m), held(&pathCache.RWMutex)
 
 //@ func (v *Vue) evalConditionExpr(ctx, expr) (r, err)
-//@   modifies contents(v.exprEval.programs), contents(pathCache.m)
+//@   modifies caches(v)
 //@ func (v *Vue) evalCondition(ctx, expr) (r, err)
-//@   modifies contents(v.exprEval.programs), contents(pathCache.m)
+//@   modifies caches(v)
 
 //@ func (v *Vue) evalElseIfChain(ctx, node, nodes, depth) (res, skip, err)
 //@   requires C03.chain.head: len(nodes) >= 1 && nodes[0] == node
@@ -412,7 +420,7 @@ package vuego
 // ---- evaluation family: frames and scope-stack balance (C04, C05, C06, C16 build on these) ----
 
 //@ macro BALANCED(c) = len(c.stack.stack) == old(len(c.stack.stack)) && (forall bi int :: 0 <= bi && bi < len(c.stack.stack) ==> c.stack.stack[bi] == old(c.stack.stack[bi]))
-//@ modset caches(v) = contents(v.exprEval.programs), contents(pathCache.m)
+//@ modset caches(v) = contents(v.exprEval.programs), contents(pathCache.m), held(&v.exprEval.mu), held(&pathCache.RWMutex)
 
 //@ func (v *Vue) callFunc(ctx, fn, args) (r, err)
 //@   trusted
@@ -561,7 +569,8 @@ package vuego
 //@   v.templateCache[f].dom == parsedDom(v.templateFS, f, instant(v.templateCache[f].modTime))
 
 //@ func (v *Vue) loadCachedWithFrontMatter(filename) (fm, dom, err)
-//@   modifies contents(v.templateCache)
+//@   unlocked
+//@   modifies contents(v.templateCache), held(&v.templateMu)
 //@   ensures C15.fresh: err == nil && v.templateFS != nil && fileExists(v.templateFS, filename) && curInstant(v.templateFS, filename) != 0 ==>
 //@     fm == parsedFM(v.templateFS, filename, curInstant(v.templateFS, filename)) && dom == parsedDom(v.templateFS, filename, curInstant(v.templateFS, filename))
 //@   ensures C15.missing: v.templateFS != nil && !fileExists(v.templateFS, filename) ==> err != nil
